@@ -292,10 +292,14 @@ def sparse_cases():
                                          ['calc', [['rect', sub, subrows(vals[1])]]], ['calc', [x + [2.0]]]],
             'name-whatif-then-cell-whatif': [['calc', [name + [rows(vals[0])]]], ['calc', [x + [4.0]]], ['plain']],
         }
-        # on copies (C17): the copy takes the what-ifs, the original stays what it was
         pop = {tuple(p_) for p_ in sh_['pop']}
         blank = [(r, c) for r in range(full[2], full[4] + 1) for c in range(full[3], full[5] + 1) if (r, c) not in pop][1]
         bc = ['blankcell', [0, 0, blank[0], blank[1]]]
+        # a value for ONE unpopulated cell of the rectangle (it has no node of its own), before and after a compile
+        seqs['blank-cell-whatif'] = [['calc', [bc + [10.0]]], ['plain'], ['calc', [bc + [-4.0], x + [2.0]]], ['plain']]
+        seqs['compile-then-blank-cell-whatif'] = [['compile', 'f', [x], outs], ['call', 'f', [7.0]], ['calc', [bc + [10.0]]], ['plain'],
+                                                  ['call', 'f', [3.0]], ['calc', [bc + [5.0], x + [1.0]]]]
+        # on copies (C17): the copy takes the what-ifs, the original stays what it was
         for how in ('deepcopy', 'dill'):
             seqs['copy-%s-whatif-rect' % how] = [['copy', how], ['calc', [rect + [rows(vals[0])]]], ['orig-plain'], ['plain'],
                                                  ['calc', [name + [rows(vals[1])]]], ['orig-plain']]
